@@ -174,9 +174,9 @@ func VerifC10GraphFull() {
 
 // All forms of naming a file, any root.
 func VerifC10Kinds() {
-	verifC10(zC10Cfg{n: 2, extra0: []int{zkDotRel, zkAbs, zkDangling, zkGlobAll, zkGlobTail, zkGlobNone, zkHome, zkBig}, extra1: []int{zkDangling, zkGlobAll}, rootChoice: true, homeBack: true, symSize: true})
+	verifC10(zC10Cfg{n: 2, extra0: []int{zkDotRel, zkAbs, zkAbsDots, zkDangling, zkGlobAll, zkGlobTail, zkGlobNone, zkHome, zkBig}, extra1: []int{zkDangling, zkGlobAll}, rootChoice: true, homeBack: true, symSize: true})
 }
 
 func VerifC10KindsFull() {
-	verifC10(zC10Cfg{n: 3, extra0: []int{zkAbs, zkDangling, zkGlobAll, zkGlobTail, zkGlobNone, zkHome, zkBig}, homeBack: true, symSize: true})
+	verifC10(zC10Cfg{n: 3, extra0: []int{zkAbs, zkAbsDots, zkDangling, zkGlobAll, zkGlobTail, zkGlobNone, zkHome, zkBig}, homeBack: true, symSize: true})
 }
